@@ -338,6 +338,13 @@ def r9(ctx):
     import c06
     c06.r5(ctx)
 
+def r10(ctx):
+    """'acts on ... a link frame only when it is addressed to its own address': the FramePayload is reused across frames, so a frame
+    delivered with the stale body of a previous frame (possibly one addressed to another station and correctly ignored) makes the
+    endpoint act on traffic that was not addressed to it. Payload hygiene is rule C06.R3 (shared)."""
+    import c06
+    c06.r3(ctx)
+
 RULES = [
     ("C07.R1", "T2+cut", "FrameInfo/Reply only after direction, source and destination validation", r1),
     ("C07.R2", "T2", "no link reply for broadcast; broadcast accepts user data only", r2),
@@ -348,4 +355,5 @@ RULES = [
     ("C07.R7", "T2", "error / echo / confirm responses only on non-broadcast edges", r7),
     ("C07.R8", "T2", "assembler accepts a broadcast only as a single FIR&FIN segment", r8),
     ("C07.R9", "T4", "link address classes (reserved / broadcast / self) equal the standard on both roles (shared with C06.R5)", r9),
+    ("C07.R10", "T2/T8", "a frame's payload is its own: cleared before the body is read, every block behind its CRC test (shared with C06.R3)", r10),
 ]
